@@ -533,3 +533,44 @@ func TestReproK29_MergeKeepsSetShadowedByKV(t *testing.T) {
 		t.Fatal(err)
 	}
 }
+
+// K30: when nothing in the directory is live any more (every key deleted), Merge rewrote nothing, removed every
+// segment - the active one included - and kept appending to the unlinked file: writes committed after the Merge
+// were gone after the next reopen.
+func TestReproK30_MergeKeepsTheActiveSegment(t *testing.T) {
+	dir := reproDir(t)
+	defer os.RemoveAll(dir)
+	d := reproOpen(t, dir, HintKeyValAndRAMIdxMode, 150, FileIO)
+	for _, k := range []string{"k1", "k2"} {
+		k := k
+		if err := d.Update(func(tx *Tx) error { return tx.Put("b", []byte(k), []byte("value-value-value-value"), 0) }); err != nil {
+			t.Fatal(err)
+		}
+	}
+	for _, k := range []string{"k1", "k2"} {
+		k := k
+		if err := d.Update(func(tx *Tx) error { return tx.Delete("b", []byte(k)) }); err != nil {
+			t.Fatal(err)
+		}
+	}
+	if err := d.Merge(); err != nil {
+		t.Fatal(err)
+	}
+	if err := d.Update(func(tx *Tx) error { return tx.Put("b", []byte("k9"), []byte("v9"), 0) }); err != nil {
+		t.Fatal(err)
+	}
+	if err := d.Close(); err != nil {
+		t.Fatal(err)
+	}
+	d = reproOpen(t, dir, HintKeyValAndRAMIdxMode, 150, FileIO)
+	defer d.Close()
+	if err := d.View(func(tx *Tx) error {
+		e, err := tx.Get("b", []byte("k9"))
+		if err != nil || string(e.Value) != "v9" {
+			return fmt.Errorf("after Merge, Put(k9), Close, Open: Get(k9) = %v, %v; the write went to a segment Merge had unlinked", e, err)
+		}
+		return nil
+	}); err != nil {
+		t.Fatal(err)
+	}
+}
